@@ -531,7 +531,10 @@ class Assert(Statement):
     def write(self, scope: VhdlScope) -> str:
         if self._message is None:
             return f"assert {self._test.write(scope)};"
-        return f'assert {self._test.write(scope)} report "{self._message}";'
+        # quotation marks are doubled inside string literals,
+        # a string literal cannot contain line breaks
+        message = " ".join(str(self._message).splitlines()).replace('"', '""')
+        return f'assert {self._test.write(scope)} report "{message}";'
 
 
 #
